@@ -38,6 +38,10 @@ def gen_case(rng, nthreads=None):
       r = rng.random()
       if r < 0.08:
         prog.append(['single_noctor', rng.choice(keys)])   # a use without constructor: an error unless cached
+      elif r < 0.16:
+        # a use whose constructor raises: unless the object is cached already, that use fails (its own fault) and
+        # nothing is constructed; every other use of the scope name goes on as if it had not happened
+        prog.append(['single_fail', rng.choice(keys)])
       elif r < 0.5:
         prog.append(['single', rng.choice(keys)])
       elif r < 0.85:
@@ -46,7 +50,12 @@ def gen_case(rng, nthreads=None):
         prog.append(['read'])
     threads.append(prog)
   sched = [rng.randrange(nt) for _ in range(rng.randint(10, 120))]
-  return {'dom': 'sched', 'threads': threads, 'schedule': sched, '_finalize': rng.random() < 0.3}
+  case = {'dom': 'sched', 'threads': threads, 'schedule': sched, '_finalize': rng.random() < 0.3}
+  if rng.random() < 0.3:
+    # the configuration uses dynamic registration (the operative text then starts with the imports it needs);
+    # 1: both configurables live in one module, 2: in two modules
+    case['_dynreg'] = rng.choice([1, 2])
+  return case
 
 
 def gen_history(rng):
@@ -93,6 +102,32 @@ def gen_cases(rng, tier, boost=1):
       yield {'dom': 'sched', 'threads': threads, 'schedule': [1] * a + [0] * 80 + [1] * 80}
       if k < 2:   # ... and the same on a finalized configuration
         yield {'dom': 'sched', 'threads': threads, 'schedule': [0] * a + [1] * 80 + [0] * 80, '_finalize': True}
+
+  # the same single pre-emption on configurations that use dynamic registration: a read (which first works out the
+  # imports its text needs) meets the first call of a configurable - of a module the record knows already, or of a
+  # module nothing recorded so far lives in - or a call that extends an existing record
+  dyn_progs = [[[['call', 'f', '', 1], ['read']], [['call', 'g', 'a/b', None]]],
+               [[['call', 'g', 'a', 2], ['read'], ['read']], [['call', 'f', 'a', None], ['call', 'g', '', None]]],
+               [[['call', 'f', '', 1], ['call', 'f', 'a', None], ['read']], [['call', 'f', 'a/b', 2], ['read']]],
+               [[['read'], ['read']], [['call', 'g', 'a/b', None], ['call', 'f', 'a/b', None]]]]
+  for k, threads in enumerate(dyn_progs):
+    for a in range(0, 60 if tier == 'quick' else 160, 1):
+      dyn = 1 + (a + k) % 2
+      yield {'dom': 'sched', 'threads': threads, 'schedule': [0] * a + [1] * 120 + [0] * 120, '_dynreg': dyn}
+      if a < 30:
+        yield {'dom': 'sched', 'threads': threads, 'schedule': [1] * a + [0] * 120 + [1] * 120, '_dynreg': 3 - dyn}
+
+  # a first use whose constructor fails, and the same scope name used again - by the same thread, by another one, by
+  # both - with a working constructor: under every placement of one pre-emption
+  fail_progs = [[[['single_fail', 'k1'], ['single', 'k1']], [['single', 'k1']]],
+                [[['single_fail', 'k2']], [['single', 'k2'], ['single', 'k2']]],
+                [[['single_fail', 'kn'], ['single_fail', 'kn'], ['single', 'kn']], [['single_noctor', 'kn'], ['single', 'kn']]],
+                [[['single_fail', 'k1'], ['single', 'kd']], [['single_fail', 'kd'], ['single', 'k1']]],
+                [[['single', 'k2'], ['single_fail', 'k2']], [['single_fail', 'k2'], ['single', 'k2']]]]
+  for threads in fail_progs:
+    for a in range(0, 16 if tier == 'quick' else 40):
+      yield {'dom': 'sched', 'threads': threads, 'schedule': [0] * a + [1] * 60 + [0] * 60}
+      yield {'dom': 'sched', 'threads': threads, 'schedule': [1] * a + [0] * 60 + [1] * 60}
 
 
 # ------------------------------------------------------------------ instrumented shared objects
@@ -262,14 +297,31 @@ class ThreadingShim:
     return getattr(threading, name)
 
 
-def build(gin, sched, finalize=False):
+DYN_MODULES = ('pm', 'pn')
+
+
+def build(gin, sched, finalize=False, dynreg=0):
   cfg = gin.config
-  g = {'__name__': 'pm'}
-  exec('def f(x=0, y=5):\n  return (x, y)\ndef g(z=1):\n  return z\n', g)  # pylint: disable=exec-used
-  fns = {'f': gin.configurable(g['f']), 'g': gin.configurable(g['g'])}
+  gmod = 'pm'
+  if dynreg:
+    # importable modules (the text of a configuration that uses dynamic registration names them in import statements)
+    import sys
+    import types
+    gmod = 'pn' if dynreg == 2 else 'pm'
+    mods = {}
+    for name in DYN_MODULES:
+      mods[name] = sys.modules[name] = types.ModuleType(name)
+    exec('def f(x=0, y=5):\n  return (x, y)\n', mods['pm'].__dict__)  # pylint: disable=exec-used
+    exec('def g(z=1):\n  return z\n', mods[gmod].__dict__)  # pylint: disable=exec-used
+    fns = {'f': gin.configurable(mods['pm'].f), 'g': gin.configurable(mods[gmod].g)}
+    gin.parse_config('from __gin__ import dynamic_registration\n')
+  else:
+    g = {'__name__': 'pm'}
+    exec('def f(x=0, y=5):\n  return (x, y)\ndef g(z=1):\n  return z\n', g)  # pylint: disable=exec-used
+    fns = {'f': gin.configurable(g['f']), 'g': gin.configurable(g['g'])}
   gin.bind_parameter('pm.f.x', 1)
   gin.bind_parameter('a/pm.f.y', 7)
-  gin.bind_parameter('a/b/pm.g.z', [1, 2, 3])
+  gin.bind_parameter('a/b/%s.g.z' % gmod, [1, 2, 3])
   if finalize:
     gin.finalize()     # a locked configuration: calls keep recording into the operative config, reads keep reading it
   if sched is not None:
@@ -290,6 +342,10 @@ def build(gin, sched, finalize=False):
   return fns
 
 
+class CtorFailed(Exception):
+  pass
+
+
 def do_action(gin, fns, act, counts, log):
   if act[0] == 'single':
     key = act[1]
@@ -305,6 +361,16 @@ def do_action(gin, fns, act, counts, log):
       return None if key == 'kn' else object()
     obj = gin.config.singleton_value(key, ctor)
     log.append(['single', key, id(obj)])
+  elif act[0] == 'single_fail':
+    key = act[1]
+
+    def failing():
+      raise CtorFailed(key)
+    try:
+      obj = gin.config.singleton_value(key, failing)
+      log.append(['single', key, id(obj)])   # cached already: the constructor is not needed
+    except CtorFailed:
+      log.append(['ctor_failed', key])       # nothing constructed, nothing cached; this use's own failure
   elif act[0] == 'single_noctor':
     try:
       obj = gin.config.singleton_value(act[1])
@@ -328,10 +394,20 @@ def run_impl(case):
   if case['dom'] == 'gin':
     import gindom
     return gindom.run_impl(case)
+  try:
+    return run_sched_case(case)
+  finally:
+    import sys
+    for name in DYN_MODULES:
+      sys.modules.pop(name, None)
+
+
+def run_sched_case(case):
   gin = core.fresh_gin()
   n = len(case['threads'])
   sched = Sched(n, case['schedule'])
-  fns = build(gin, sched, case.get('_finalize', False))
+  dynreg = case.get('_dynreg', 0)
+  fns = build(gin, sched, case.get('_finalize', False), dynreg)
   counts, logs, errors = {}, [[] for _ in range(n)], [None] * n
 
   def worker(tid):
@@ -361,7 +437,7 @@ def run_impl(case):
     for e in lg:
       if e[0] == 'read':
         g2 = core.fresh_gin()
-        build(g2, None)
+        build(g2, None, False, dynreg)
         g2.clear_config()
         try:
           g2.parse_config(e[1])
@@ -369,7 +445,7 @@ def run_impl(case):
           reads_parse = f'{type(ex).__name__}: {ex}'[:200]
   # sequential reference: the same actions one thread after the other, in a fresh interpreter
   g3 = core.fresh_gin()
-  fns3 = build(g3, None, case.get('_finalize', False))
+  fns3 = build(g3, None, case.get('_finalize', False), dynreg)
   c3 = {}
   seq_box = {}
 
@@ -480,6 +556,8 @@ def tally(stats, case, impl):
     return
   stats['threads=%d' % len(case['threads'])] = stats.get('threads=%d' % len(case['threads']), 0) + 1
   stats['turns'] = stats.get('turns', 0) + len(case['schedule'])
+  if case.get('_dynreg'):
+    stats['dynreg=%d' % case['_dynreg']] = stats.get('dynreg=%d' % case['_dynreg'], 0) + 1
   for prog in case['threads']:
     for act in prog:
       stats['act:' + act[0]] = stats.get('act:' + act[0], 0) + 1
